@@ -9,6 +9,12 @@ TRUST = ("Trusted base: go/types, go/ssa, go/packages (golang.org/x/tools v0.29.
 P = {
  'C03': (True, 'other', 'token typestate dataflow over go/ssa (no token dropped), who-may-write + provenance slice of the remaining accumulator, once-per-token cycle rule, accumulator hand-off at cursor moves',
          'Every path of parseCLIArgs (normal mode) is covered: each token gets a disposition before the next advance/return, pass-through appends are verbatim, at most once per token and survive command descent, Parse returns the final node\'s list unmodified. Does not decide that the consumed tokens are the right ones.'),
+ 'C04': (True, 'other', 'dominance of the terminator test over every interpretation effect, edge-region effect scan, look-ahead guard facts, post-bulk-copy reachability (go/ssa CFG)',
+         'On every path of parseCLIArgs: effects on a token are only reachable when it is not `--`; the terminator edge only advances and bulk-copies; every greedy look-ahead advance is dominated by peeked != "--"; nothing is interpreted after a bulk copy; optional kinds cannot enter the mandatory-value loop.'),
+ 'C08': (True, 'other', 'must-pass-through on the no-match edge, mode-specialised path-sensitive reachability (Pass/Warn), policy-loop shape in Parse, inheritance of cursor-read configuration in child literals, hand-off at cursor moves',
+         'Every path from the no-match edge records the unknown option built from the verbatim token; Pass/Warn keep the token in the remaining list; Parse applies Fail/Warn before any success return; child nodes inherit unknownMode/requireOrder; records survive command descent. Message wording not decided.'),
+ 'C09': (True, 'other', 'guard facts at both stop sites, who-may-read (non-interference) of requireOrder, helper summary by typestate, post-bulk-copy reachability, inheritance in child literals',
+         'Both stop sites are guarded by the cursor\'s requireOrder and placed after matcher/command scan; non-ordered handling is excluded under the flag; the helper copies current+rest verbatim and drains the iterator; nothing is interpreted afterwards; the flag is read nowhere else, so parsing before the stop point cannot depend on it.'),
 }
 NOT_YET = 'static check for this property is not built yet (work in progress; see DESIGN.md section 4 for the planned rules)'
 checks, na = [], []
